@@ -124,7 +124,7 @@ type World struct {
 	BeforePoint func(p *Proc)
 	// OnSync is called after a synchronisation operation of the sync shim completed
 	// (kind: mutex-lock, mutex-unlock, rwmutex-lock, …).
-	OnSync func(p *Proc, kind string)
+	OnSync     func(p *Proc, kind string)
 	clock      time.Time
 	Trace      []Event
 	KeepTrace  bool
@@ -658,7 +658,12 @@ func (w *World) Stat(name string) (os.FileInfo, error) {
 	return fileInfo{b, int64(len(ino.Data))}, nil
 }
 
-func (w *World) Now() time.Time        { return w.clock }
+// Now: every reading of the clock is later than the previous one (two readings in the same nanosecond are
+// not a behaviour worth exploring, and code that derives seeds or names from the clock relies on it).
+func (w *World) Now() time.Time {
+	w.clock = w.clock.Add(time.Nanosecond)
+	return w.clock
+}
 func (w *World) Sleep(d time.Duration) { w.clock = w.clock.Add(d) }
 
 func (w *World) Rand63() int64 {
